@@ -1,0 +1,14 @@
+/*
+ * Verification hooks (runtime monitoring). Everything in this file is inside the guard TASMANIAN_VERIF_HOOKS,
+ * without the define the file is never included and nothing changes.
+ *
+ * TSG_VERIF_HOOK(tag, a, b) calls the weak function tsg_verif_hook() if the executable defines it:
+ * a monitor can count loop iterations, record protocol events or inject delays at schedule points.
+ */
+#ifndef __TASMANIAN_VERIF_HOOKS_HPP
+#define __TASMANIAN_VERIF_HOOKS_HPP
+#ifdef TASMANIAN_VERIF_HOOKS
+extern "C" void tsg_verif_hook(const char *tag, long a, long b) __attribute__((weak));
+#define TSG_VERIF_HOOK(tag, a, b) do{ if (tsg_verif_hook) tsg_verif_hook((tag), (long)(a), (long)(b)); }while(0)
+#endif
+#endif
